@@ -384,7 +384,7 @@ func (e *Engine) havocShallow(st *State, args []Val) {
 						hn := hn
 						preds = append(preds, pred{hn, func(a string) string { return "(= " + a + " " + t + ")" }})
 					}
-					if vh, _, sc := e.mapValHeap(mt); sc {
+					for _, vh := range e.mapValueHeaps(mt) {
 						preds = append(preds, pred{vh, func(a string) string { return "(= " + a + " " + t + ")" }})
 					}
 					return
@@ -703,6 +703,18 @@ func (e *Engine) applyContract(st *State, c *FuncContract, key string, sig *type
 		rs = append(rs, rv)
 	}
 	bindResults(env, c, rs)
+	// a clause "result == x" / "resultN == x" names the result by a callee-local identifier x: at call sites x is
+	// that result (other clauses may be stated over x, e.g. to match the shape of a loop invariant)
+	for _, en := range c.Ensures {
+		x := en.Expr
+		if x != nil && x.Op == "bin" && x.Name == "==" && len(x.Args) == 2 && x.Args[0].Op == "id" && x.Args[1].Op == "id" && strings.HasPrefix(x.Args[0].Name, "result") {
+			if rv, ok := env.vars[x.Args[0].Name]; ok {
+				if _, taken := env.vars[x.Args[1].Name]; !taken {
+					env.vars[x.Args[1].Name] = rv
+				}
+			}
+		}
+	}
 	switch len(rs) {
 	case 0:
 		res = Val{K: KUnit}
@@ -1211,6 +1223,105 @@ type mapLeaf struct {
 
 func (e *Engine) mapDomHeap(mt *types.Map) string { return "MD$" + e.mapKeySort(mt) }
 
+// ---- maps whose values are structs (or small aggregates): one value heap per scalar leaf ----
+
+type aggLeaf struct {
+	kind Kind
+	ty   types.Type
+}
+
+// aggLeaves flattens an aggregate type into its scalar leaves (same order as aggFlatten / aggBuild).
+func aggLeaves(t types.Type, out *[]aggLeaf, depth int) bool {
+	if depth > 4 {
+		return false
+	}
+	switch k := kindOf(t); k {
+	case KInt, KBool, KAddr, KStr, KIface, KReal:
+		*out = append(*out, aggLeaf{k, t})
+		return true
+	case KSlice:
+		*out = append(*out, aggLeaf{KAddr, nil}, aggLeaf{KInt, nil}, aggLeaf{KInt, nil}, aggLeaf{KInt, nil})
+		return true
+	case KStruct:
+		st := structOf(t)
+		if st.NumFields() > 24 {
+			return false
+		}
+		for i := 0; i < st.NumFields(); i++ {
+			if !aggLeaves(st.Field(i).Type(), out, depth+1) {
+				return false
+			}
+		}
+		return true
+	}
+	return false
+}
+
+func aggFlatten(v Val, t types.Type, out *[]string) {
+	switch kindOf(t) {
+	case KSlice:
+		*out = append(*out, v.Base, v.Off, v.Len, v.Cap)
+	case KStruct:
+		st := structOf(t)
+		for i := 0; i < st.NumFields(); i++ {
+			if i < len(v.F) {
+				aggFlatten(v.F[i], st.Field(i).Type(), out)
+			}
+		}
+	default:
+		*out = append(*out, v.T)
+	}
+}
+
+func aggBuild(t types.Type, terms []string, pos *int) Val {
+	switch k := kindOf(t); k {
+	case KSlice:
+		v := Val{K: KSlice, Base: terms[*pos], Off: terms[*pos+1], Len: terms[*pos+2], Cap: terms[*pos+3], Ty: t}
+		*pos += 4
+		return v
+	case KStruct:
+		st := structOf(t)
+		v := Val{K: KStruct, Ty: t}
+		for i := 0; i < st.NumFields(); i++ {
+			v.F = append(v.F, aggBuild(st.Field(i).Type(), terms, pos))
+		}
+		return v
+	default:
+		v := Val{K: k, T: terms[*pos], Ty: t}
+		*pos++
+		return v
+	}
+}
+
+// mapAggHeaps: value heaps of a map with struct values, one per leaf ("MS$K$V$<typetag>_<leaf>").
+func (e *Engine) mapAggHeaps(mt *types.Map) ([]string, []aggLeaf, bool) {
+	if kindOf(mt.Elem()) != KStruct {
+		return nil, nil, false
+	}
+	var ls []aggLeaf
+	if !aggLeaves(mt.Elem(), &ls, 0) || len(ls) == 0 || len(ls) > 40 {
+		return nil, nil, false
+	}
+	tag := e.typeTag(mt.Elem())
+	ks := e.mapKeySort(mt)
+	var hs []string
+	for i, l := range ls {
+		hs = append(hs, fmt.Sprintf("MS$%s$%s$%d_%d", ks, sortOfKind(l.kind), tag, i))
+	}
+	return hs, ls, true
+}
+
+// mapValueHeaps: every heap that holds values of this map type (for frames and havoc).
+func (e *Engine) mapValueHeaps(mt *types.Map) []string {
+	if vh, _, sc := e.mapValHeap(mt); sc {
+		return []string{vh}
+	}
+	if hs, _, ok := e.mapAggHeaps(mt); ok {
+		return hs
+	}
+	return nil
+}
+
 func (e *Engine) mapValHeap(mt *types.Map) (string, Kind, bool) {
 	k := kindOf(mt.Elem())
 	switch k {
@@ -1233,6 +1344,23 @@ func (e *Engine) mapGet(st *State, m Val, key Val, mt *types.Map) (val Val, ok s
 	ok = st.define("mok", "Bool", sAnd(sNot(sEq(m.T, "null")), "(select (select "+dh+" "+m.T+") "+key.T+")"))
 	vh, vk, scalar := e.mapValHeap(mt)
 	if !scalar {
+		if hs, ls, isAgg := e.mapAggHeaps(mt); isAgg {
+			var terms []string
+			for i, hn := range hs {
+				raw := "(select (select " + st.heap(hn) + " " + m.T + ") " + key.T + ")"
+				t := st.define("mval", sortOfKind(ls[i].kind), raw)
+				if ls[i].kind == KInt && ls[i].ty != nil {
+					st.assume(rangeAssume(t, ls[i].ty))
+				}
+				if ls[i].kind == KAddr {
+					st.envAddr(t)
+				}
+				terms = append(terms, t)
+			}
+			pos := 0
+			v := aggBuild(mt.Elem(), terms, &pos)
+			return valIte(ok, v, st.zeroVal(mt.Elem())), ok
+		}
 		e.abstracted["map with aggregate values (fresh value on lookup)"] = true
 		v := st.freshVal(mt.Elem(), "mval")
 		return valIte(ok, v, st.zeroVal(mt.Elem())), ok
@@ -1303,6 +1431,17 @@ func (e *Engine) mapUpdate(st *State, in *ssa.MapUpdate) {
 	st.setHeap("ML", "(store "+ml+" "+m.T+" "+sIte(was, "(select "+ml+" "+m.T+")", "(+ (select "+ml+" "+m.T+") 1)")+")")
 	vh, vk, scalar := e.mapValHeap(mt)
 	if !scalar {
+		if hs, _, isAgg := e.mapAggHeaps(mt); isAgg {
+			var terms []string
+			aggFlatten(val, mt.Elem(), &terms)
+			if len(terms) == len(hs) {
+				for i, hn := range hs {
+					h := st.heap(hn)
+					st.setHeap(hn, "(store "+h+" "+m.T+" (store (select "+h+" "+m.T+") "+key.T+" "+terms[i]+"))")
+				}
+				return
+			}
+		}
 		e.abstracted["map with aggregate values (update not recorded)"] = true
 		return
 	}
@@ -1345,7 +1484,7 @@ func (e *Engine) next(st *State, in *ssa.Next) {
 	dom := "(select (select " + dh + " " + m.T + ") "
 	// ok ==> key in map and not visited; !ok ==> every key of the map visited
 	st.assume(sImp(ok, sAnd(sNot(sEq(m.T, "null")), dom+k+")", sNot("(select "+it.visited+" "+k+")"))))
-	st.assume(sImp(sNot(ok), sOr(sEq(m.T, "null"), "(forall ((k "+ks+")) (! (=> "+dom+"k) (select "+it.visited+" k)) :pattern ("+dom+"k))))")))
+	st.assume("(forall ((k " + ks + ")) (! (=> (and (not " + ok + ") (not (= " + m.T + " null)) " + dom + "k)) (select " + it.visited + " k)) :pattern (" + dom + "k))))")
 	nv := st.define("visited", "(Array "+ks+" Bool)", sIte(ok, "(store "+it.visited+" "+k+" true)", it.visited))
 	it.visited = nv
 	if it.started == "" {
@@ -1370,6 +1509,22 @@ func (e *Engine) next(st *State, in *ssa.Next) {
 			if vk == KInt {
 				st.assume(rangeAssume(t, mt.Elem()))
 			}
+		} else if hs, ls, isAgg := e.mapAggHeaps(mt); isAgg {
+			var terms []string
+			for i, hn := range hs {
+				t := st.define("nextv", sortOfKind(ls[i].kind), "(select (select "+st.heap(hn)+" "+m.T+") "+k+")")
+				if ls[i].kind == KInt && ls[i].ty != nil {
+					st.assume(rangeAssume(t, ls[i].ty))
+				}
+				if ls[i].kind == KAddr {
+					st.envAddr(t)
+				}
+				terms = append(terms, t)
+			}
+			pos := 0
+			valV = aggBuild(mt.Elem(), terms, &pos)
+			// slices inside the value: usual shape facts
+			st.sliceFacts(valV)
 		} else {
 			valV = st.freshVal(mt.Elem(), "nextv")
 		}
